@@ -95,35 +95,52 @@ def error_events(cid0: int, rng: random.Random) -> Tuple[List[List[Any]], List[D
     return ev, cfgs
 
 
+VARIANT_KEYS = ("grad_only", "layout", "call_style")
+
+
+def family_ids(cfgs: List[Dict[str, Any]]) -> List[int]:
+    """Configuration ids for the call log: variants that are THE SAME CALL semantically (non-contiguous inputs, arguments passed by
+    keyword, only some slots requiring grad) share the id of their base configuration, so ScaledOps_Trace's memo demands the
+    same factor of all of them."""
+    import json
+
+    ids: Dict[str, int] = {}
+    out = []
+    for c in cfgs:
+        key = json.dumps({k: v for k, v in c.items() if k not in VARIANT_KEYS}, sort_keys=True, default=str)
+        out.append(ids.setdefault(key, len(ids) + 1))
+    return out
+
+
 # ---------------------------------------------------------------------- process-history independence
 def _other_history_worker(args: Tuple[List[Dict[str, Any]], bool, bool, int]) -> List[Tuple[int, List[List[Any]]]]:
     """Runs in a FRESH interpreter: the same configurations in REVERSE order, one data draw each."""
     import torch
 
-    cfgs, want_fwd, want_bwd, threads = args
+    cfgs, cids, want_fwd, want_bwd, threads = args
     torch.set_num_threads(threads)
     torch.manual_seed(0)
     classes = Classes(raw=True)
     out = []
-    for cid in range(len(cfgs), 0, -1):
-        ev, _ = events_for_cfg(cid, cfgs[cid - 1], want_fwd, want_bwd, classes, draws=((0, 0),))
-        out.append((cid, ev))
+    for pos in range(len(cfgs) - 1, -1, -1):
+        ev, _ = events_for_cfg(cids[pos], cfgs[pos], want_fwd, want_bwd, classes, draws=((0, 0),))
+        out.append((pos, ev))
     return out
 
 
-def other_history_events(cfgs: List[Dict[str, Any]], want_fwd: bool, want_bwd: bool, classes: Classes, threads: int = 4) -> List[List[Any]]:
+def other_history_events(cfgs: List[Dict[str, Any]], cids: List[int], want_fwd: bool, want_bwd: bool, classes: Classes, threads: int = 4) -> List[List[Any]]:
     """"A scalar fixed by shapes and hyper-parameters alone" cannot depend on what the process did before: the configurations
     are run again in a fresh interpreter in reverse order and their events join the SAME call log (same configuration ids),
     so that ScaledOps_Trace's memo rejects a factor that differs between the two histories."""
     import multiprocessing as mp
 
     with mp.get_context("spawn").Pool(1) as pool:
-        res = pool.apply(_other_history_worker, ((cfgs, want_fwd, want_bwd, threads),))
+        res = pool.apply(_other_history_worker, ((cfgs, cids, want_fwd, want_bwd, threads),))
     events: List[List[Any]] = []
-    for cid, ev in res:
-        _, ct = tol_of(cfgs[cid - 1])
+    for pos, ev in res:
+        _, ct = tol_of(cfgs[pos])
         for e in ev:
             if isinstance(e[4], list) and e[4] and e[4][0] == "raw":
-                e[4] = classes.cls((cid, e[3]), e[4][1], ct)
+                e[4] = classes.cls((cids[pos], e[3]), e[4][1], ct)
             events.append(e)
     return events
